@@ -176,13 +176,14 @@ def run(chk):
         for s in range(ns):
             enum_cases.append(Case("toks-%d-%d" % (L, s), "\x1f".join(TOKENS),
                                    {"kind": "tokens", "len": L, "shard": "%d/%d" % (s, ns)}, cmd="ENUM"))
-    res = core.run_cases(enum_cases, shards=shards, timeout=1500)
+    res = core.run_cases(enum_cases, shards=shards, timeout=(60 if quick else 900), max_hangs=1)
     enum_total = 0
     outcome_hist = {}
+    stuck = []
     for c in enum_cases:
         r = res.get(c.id)
         if not r or "evaluated" not in r:
-            chk.inconc("enumeration shard %s: %s" % (c.id.rsplit("-", 1)[0], (r or {}).get("outcome", "missing")))
+            stuck.append(c)
             continue
         enum_total += r["evaluated"]
         for k, v in r["counts"].items():
@@ -190,6 +191,38 @@ def run(chk):
         for f in r["fails"]:
             fails.append((f["site"], f["msg"], f["witness"], c.id))
         chk.shapes.add(("enum", c.id.rsplit("-", 1)[0]))
+    # a shard that died or hung is replayed text by text so that the culprit is identified
+    if stuck:
+        import itertools
+        replay = []
+        for c in stuck[:4]:
+            syms = CHARS if c.id.startswith("chars") else (CORE_CHARS if c.id.startswith("core") else TOKENS)
+            sep = "" if not c.id.startswith("toks") else " "
+            L = int(c.flags["len"])
+            si, sn = [int(x) for x in c.flags["shard"].split("/")]
+            for k, tup in enumerate(itertools.product(syms, repeat=L)):
+                if k % sn == si:
+                    replay.append(("enum-replay", sep.join(tup)))
+            if len(replay) > 400000:
+                break
+        rcases = [Case("x%d" % i, t, {"stage": "compile"}) for i, (_, t) in enumerate(replay)]
+        rres = core.run_cases(rcases, shards=shards, timeout=25, max_hangs=1)
+        found = 0
+        for i, (cls, t) in enumerate(replay):
+            rr = rres.get("x%d" % i) or {}
+            oc = rr.get("outcome")
+            if oc == "panic":
+                fails.append((rr["panic"]["loc"], rr["panic"]["msg"], t, cls))
+                found += 1
+            elif oc == "token_budget":
+                fails.append(("token_budget", "", t, cls))
+                found += 1
+            elif oc in ("hang", "died"):
+                fails.append((oc + ":" + cls, str(rr.get("rc")), t, cls))
+                found += 1
+        chk.count("enumeration_shards_replayed_text_by_text", len(stuck[:4]))
+        if not found:
+            chk.inconc("an enumeration shard died or timed out and the replay found no culprit")
     chk.observed(None, enum_total)
     chk.count("enumerated_texts", enum_total)
     for k, v in outcome_hist.items():
@@ -231,7 +264,7 @@ def run(chk):
         texts.append(("ladder", t))
     texts.extend(chains())
     cases = [Case("t%d" % i, t, {"stage": "compile"}) for i, (_, t) in enumerate(texts)]
-    res = core.run_cases(cases, shards=shards)
+    res = core.run_cases(cases, shards=shards, timeout=(60 if quick else 600), max_hangs=1)
     for i, (cls, t) in enumerate(texts):
         r = res.get("t%d" % i)
         if r is None:
@@ -252,6 +285,8 @@ def run(chk):
             fails.append(("token_budget", "", t, cls))
         elif oc in ("hang", "died"):
             fails.append((oc + ":" + cls, str(r.get("rc")), t, cls))
+        elif oc == "skipped":
+            chk.inconc("not run: an earlier text of the same shard hung")
         else:
             chk.inconc("probe outcome %s" % oc)
 
